@@ -346,6 +346,23 @@ func helperRound(w *kit.World, i int) error {
 		// a batched transaction that fails after its first write (beside the writer and other helpers, whose batches
 		// bbolt may merge with it): the caller gets the error and nothing of it is ever visible
 		doomed := fmt.Sprintf("doomed-%d", i)
+		// started just before it, so that bbolt is likely to merge the two: a batched transaction that succeeds. Part of
+		// its work is done by a pre-commit action registered on the context before the call. When the merged batch
+		// fails because of the other member, bbolt runs this one again on its own: all of its work is committed
+		put := func(tx *bbolt.Tx, key string) error {
+			b, err := tx.CreateBucketIfNotExists([]byte("zz-batch"))
+			if err != nil {
+				return err
+			}
+			return b.Put([]byte(key), []byte("x"))
+		}
+		goodDone := make(chan error, 1)
+		go func() {
+			ctx := kit.NewCtx()
+			ctx.AddPreCommitAction(func(c boltz.MutateContext) error { return put(c.Tx(), fmt.Sprintf("action-%d", i)) })
+			goodDone <- w.Z.Db.Batch(ctx, func(c boltz.MutateContext) error { return put(c.Tx(), fmt.Sprintf("body-%d", i)) })
+		}()
+		defer func() { <-goodDone }()
 		berr := w.Z.Db.Batch(kit.NewCtx(), func(ctx boltz.MutateContext) error {
 			if err := w.Stores["targets"].Create(ctx, (&kit.EntSpec{Name: "name-of-" + doomed}).ToEnt("targets", doomed)); err != nil {
 				return err
@@ -362,6 +379,22 @@ func helperRound(w *kit.World, i int) error {
 		})
 		if visible {
 			return fmt.Errorf("entity %s, created by a batched transaction that failed, is visible", doomed)
+		}
+		if gerr := <-goodDone; gerr != nil {
+			goodDone <- gerr
+			return fmt.Errorf("a batched transaction whose function and pre-commit action succeed returned %v (another batched transaction failed beside it)", gerr)
+		}
+		goodDone <- nil
+		var bodyThere, actionThere bool
+		_ = w.Z.Db.View(func(tx *bbolt.Tx) error {
+			if b := tx.Bucket([]byte("zz-batch")); b != nil {
+				bodyThere = b.Get([]byte(fmt.Sprintf("body-%d", i))) != nil
+				actionThere = b.Get([]byte(fmt.Sprintf("action-%d", i))) != nil
+			}
+			return nil
+		})
+		if !bodyThere || !actionThere {
+			return fmt.Errorf("a batched transaction returned nil (another batched transaction failed beside it); of its work, the function's write is committed: %v, the write of its pre-commit action: %v", bodyThere, actionThere)
 		}
 	}
 	st := w.Stores["things"]
@@ -454,6 +487,18 @@ func runC18(c c18Case) kit.Result {
 		res.Err = fmt.Errorf("setup: %v", err)
 		return res
 	}
+	// a restriction parsed once and AND-ed onto the filter of every request (all readers share the parsed predicate):
+	// an id list long enough for any shortcut the engine may take with longer lists
+	var idList []string
+	for i := 0; i < 40; i++ {
+		idList = append(idList, fmt.Sprintf("%q", fmt.Sprintf("e%d", i)))
+	}
+	restrictQ, err := ast.Parse(w.Stores["things"], "id in ["+strings.Join(idList, ", ")+"]")
+	if err != nil {
+		res.Err = fmt.Errorf("setup: parsing the shared restriction: %v", err)
+		return res
+	}
+	restriction := restrictQ.GetPredicate()
 	var firstErr atomic.Value
 	fail := func(err error) { firstErr.CompareAndSwap(nil, err) }
 	stop := make(chan struct{})
@@ -481,6 +526,21 @@ func runC18(c c18Case) kit.Result {
 				}
 				v, ids, err := readVersionKeep(w, c)
 				if err != nil {
+					fail(fmt.Errorf("reader %d: %v", r, err))
+					return
+				}
+				if err := w.Z.Db.View(func(tx *bbolt.Tx) error {
+					own, err := ast.Parse(w.Stores["things"], "true")
+					if err != nil {
+						return err
+					}
+					own.SetPredicate(ast.NewAndExprNode(own.GetPredicate(), restriction))
+					got, _, err := w.Stores["things"].QueryIdsC(tx, own)
+					if err != nil || len(got) != c.Things {
+						return fmt.Errorf("the request's filter AND the shared restriction (every id is on its list) returned %v (err %v), expected all %d entities", got, err, c.Things)
+					}
+					return nil
+				}); err != nil {
 					fail(fmt.Errorf("reader %d: %v", r, err))
 					return
 				}
